@@ -204,6 +204,9 @@ func applyCorrupt(doc []byte, c *Corrupt) []byte {
 		if len(doc) > 0 {
 			i = mod(c.A, len(doc)+1)
 		}
+		if c.A < 0 {
+			i = len(doc) // behind the document
+		}
 		out := append([]byte(nil), doc[:i]...)
 		out = append(out, c.S...)
 		return append(out, doc[i:]...)
